@@ -118,3 +118,48 @@ Theorem C14_source_read_string : forall hc sx m k, Forall byte sx ->
     end.
 Proof. exact read_string_source. Qed.
 Print Assumptions C14_source_read_string.
+
+(* the reader's core under every allocation schedule: sbdf_read_objects allocates the header, then the data block (fixed-size
+   elements) or the pointer array and one block per element (strings, binaries).  The oracle k lets attempt number k fail, for
+   every k: the status is then OUT_OF_MEMORY (fixed_status / arr_spec say so), the output argument is null, every block of
+   the cell heap that the call allocated is released again, and the caller's memory is a prefix of the memory.  (Statements
+   for every k, every stream and every count; C05 cites the same theorems for the hostile-input side.) *)
+From Sbdf Require Import ImpFactsCells ImpFactsReadObj ImpFactsReadArr.
+Theorem C14_source_read_objects_fixed : forall rf rp fo po k sx m h v cnt pk, (int_min <= cnt <= int_max)%Z -> is_arr v = false ->
+  exists f0, forall f, (f0 <= f)%nat -> exists fin,
+    callC prog_env f prog_sbdf_read_objects [VPtr rf fo; VInt v; VInt cnt; VPtr rp po; VInt pk] m k sx h = OReturn (VInt (fixed_status k sx v cnt)) fin /\
+    (fixed_status k sx v cnt = SBDF_OK ->
+       Imp.lookup "*object" (vars fin) = Some (VCell (List.length h) 0) /\
+       Imp.lookup cells_var (vars fin) = Some (VHeap (h ++ [Some [VInt v; VInt cnt; VPtr RIn (zlen m)]])) /\
+       inb fin = m ++ firstn (Z.to_nat (usize v * cnt)) sx /\
+       Imp.lookup strm_var (vars fin) = Some (VBytes (skipn (Z.to_nat (usize v * cnt)) sx))) /\
+    (fixed_status k sx v cnt <> SBDF_OK ->
+       Imp.lookup "*object" (vars fin) = Some VNull /\
+       (Imp.lookup cells_var (vars fin) = Some (VHeap h) \/ Imp.lookup cells_var (vars fin) = Some (VHeap (h ++ [None]))) /\
+       exists m', inb fin = m ++ m').
+Proof. exact read_objects_fixed_source. Qed.
+Print Assumptions C14_source_read_objects_fixed.
+
+Example C14_fixed_status_values : forall sx, map (fun k => fixed_status k sx SBDF_INTTYPEID 3) [0; 1]%Z = [SBDF_ERROR_OUT_OF_MEMORY; SBDF_ERROR_OUT_OF_MEMORY].
+Proof. intros sx. reflexivity. Qed.
+
+Theorem C14_source_read_objects_arrays : forall rf rp fo po k sx m h v cnt pk, Forall byte sx -> (int_min <= cnt <= int_max)%Z -> is_arr v = true ->
+  exists f0, forall f, (f0 <= f)%nat ->
+  match arr_spec k sx m v cnt pk with
+  | EOk qs k' s' m' => exists fin,
+      callC prog_env f prog_sbdf_read_objects [VPtr rf fo; VInt v; VInt cnt; VPtr rp po; VInt pk] m k sx h = OReturn (VInt SBDF_OK) fin /\
+      Imp.lookup "*object" (vars fin) = Some (VCell (List.length h) 0) /\ Imp.lookup cells_var (vars fin) = Some (VHeap (arr_heap h v cnt qs [])) /\ zlen qs = cnt /\
+      inb fin = m' /\ Imp.lookup strm_var (vars fin) = Some (VBytes s') /\ Imp.lookup fail_var (vars fin) = Some (VInt k')
+  | EErr st => exists fin,
+      callC prog_env f prog_sbdf_read_objects [VPtr rf fo; VInt v; VInt cnt; VPtr rp po; VInt pk] m k sx h = OReturn (VInt st) fin /\
+      Imp.lookup "*object" (vars fin) = Some VNull /\
+      (Imp.lookup cells_var (vars fin) = Some (VHeap h) \/ Imp.lookup cells_var (vars fin) = Some (VHeap (h ++ [None])) \/ Imp.lookup cells_var (vars fin) = Some (VHeap (h ++ [None; None]))) /\
+      prefix_of m (inb fin)
+  end.
+Proof. exact read_objects_arr_source. Qed.
+Print Assumptions C14_source_read_objects_arrays.
+
+(* the oracle inside the description: the k-th block of an array of two strings *)
+Example C14_arr_spec_failures : map (fun k => match arr_spec k [0; 0; 0; 0; 1; 97; 1; 98]%Z [] SBDF_STRINGTYPEID 2 1 with EErr st => st | EOk _ _ _ _ => 0%Z end) [0; 1; 2; 3; 4]%Z
+                                = [SBDF_ERROR_OUT_OF_MEMORY; SBDF_ERROR_OUT_OF_MEMORY; SBDF_ERROR_OUT_OF_MEMORY; SBDF_ERROR_OUT_OF_MEMORY; 0]%Z.
+Proof. vm_compute. reflexivity. Qed.
